@@ -6,7 +6,22 @@ COMMON_ASSUMPTIONS = [
     "values outside the stated alphabets / bounds are not covered (DESIGN.md section 9)",
 ]
 
+ROUTER_ASSUMPTIONS = COMMON_ASSUMPTIONS + [
+    "applications are assembled at run time through the add-only hook DynRouting (same register_handlers / merge_another / Dir code a tuple of routing items goes through)",
+    "requests are delivered as one read on a fresh connection (segmentation is C06's concern)",
+]
+
 PROPS = {
+    "C01": {
+        "level": "model_checking",
+        "technique": "explicit enumeration of all configurations (route sets x method sets x declaration shapes x registration orders) and all requests of a collision-forcing alphabet, each dispatched on the real router and compared with a reference matcher and across registration orders",
+        "engine": "vmc",
+        "level_text": "Bounded exhaustive exploration of configuration x input space: every route set of size <=2 over depth <=2 (quick) / size <=2 over depth <=3 and size 3 over depth <=2 (thorough) on segments {a, ab, b, :p}, every method-set assignment, seven declaration shapes, every registration order, every request of the per-set alphabet (static segments, their one-byte extensions and prefixes, empty and percent-encoded segments, trailing slashes, 7 methods). Every case runs on the real registration, finalization, Request::read, Router::handle and Response::send.",
+        "level_note": "Trusted: the reference matcher (table + segment comparison, 4 readings where the statement is open: greedy vs backtracking, per-method vs all-routes preference; cases where the readings differ are counted as ambiguous, never alarmed) and the independent HTTP response parser. Not covered: other segment texts, route sets larger than 3, depth > 3.",
+        "jobs": {"quick": 16, "thorough": 16},
+        "assumptions": ROUTER_ASSUMPTIONS,
+        "min_outcomes": 6,
+    },
     "C20": {
         "level": "exploration",
         "technique": "exhaustive enumeration of structured input families against an independent reference (bounded model checking of a pure function)",
